@@ -29,7 +29,9 @@ EXPLANATION = (
     "discipline: the single bus.send is inside `with send_lock`, responses are queued as bytes copies in a queue.Queue "
     "created per client; R5 isolation: no class in the package keeps transfer state in a mutable class-level attribute "
     "that is mutated in place (it would be shared by all instances, i.e. by all nodes); R6 the codec clause of the "
-    "statement: the C04 rules (type table, odd-width packers, error surfacing) evaluated under this property."
+    "statement: the C04 rules (type table, odd-width packers, error surfacing) evaluated under this property; R7 stale "
+    "responses flushed completely before every request; R8 the server starts every segmented transfer from a fresh buffer "
+    "and toggle; R9 the local node stores an immutable copy of exactly the downloaded bytes."
 )
 ASSUMPTIONS = [
     "not decided -- and this is most of the property: value identity over all types and values (codec and framing "
@@ -202,6 +204,11 @@ def run(chk):
     from . import c04
     from .common import RuleProxy
     c04.run(RuleProxy(chk, "R6"))
+    # ------------------------------------------------------------------ R7-R9 what makes "read back the same value" hold across transfers
+    from . import shared
+    shared.client_flush(chk, "R7")
+    shared.server_reset(chk, "R8")
+    shared.store_exact(chk, "R9")
 
 
 def _subclasses(repo, c):
